@@ -263,7 +263,7 @@ class Recorder(plumpy.ProcessListener):
         self._n(process, 'excepted', tag if reason == str(e) else 'MISMATCH:%s' % reason)
 
     def on_process_killed(self, process, msg):
-        self._n(process, 'killed', (msg or {}).get('message') if isinstance(msg, dict) else msg)
+        self._n(process, 'killed', 'NOMSG' if msg is None else (msg or {}).get('message') if isinstance(msg, dict) else msg)
 
 
 def build_class(prog, out_missing=False):
@@ -282,6 +282,8 @@ def build_class(prog, out_missing=False):
         if cmd == 'wait':
             return ps.Wait(getattr(self, 'step%d' % d['next']), msg=pyval(d['val']))
         if cmd == 'kill':
+            if d['val'] == 'NOMSG':
+                return ps.Kill()
             return ps.Kill(MessageBuilder.kill(text=pyval(d['val'])))
         if cmd == 'raise':
             raise Injected(d['val'])
@@ -797,6 +799,9 @@ class Run:
         p = self.proc
         if p is None:         # the constructor raised: there is no process (project_model gives the same record)
             return dict(UNBORN)
+        # a process killed without a message: the empty status text and the empty KilledError text stand for "no message"
+        none_msg = p.state == ps.ProcessState.KILLED and p.killed_msg() is None
+        nomsg = (lambda v: 'NOMSG' if none_msg and v == '' else v)
         f = p.future()
         if f.cancelled():
             fut = ['cancelled', '-']
@@ -804,7 +809,7 @@ class Run:
             fut = ['pending', '-']
         elif f.exception() is not None:
             e = f.exception()
-            fut = ['killed', str(e)] if isinstance(e, plumpy.KilledError) else ['exc', exc_tag(e)]
+            fut = ['killed', nomsg(str(e))] if isinstance(e, plumpy.KilledError) else ['exc', exc_tag(e)]
         else:
             fut = ['result', flat_outputs(f.result())]
         if self.task.done():
@@ -813,7 +818,7 @@ class Run:
         else:
             task = 'live'
         return {
-            'state': LABEL[p.state], 'paused': p.paused, 'killing': p.is_killing, 'status': mval(p.status),
+            'state': LABEL[p.state], 'paused': p.paused, 'killing': p.is_killing, 'status': nomsg(mval(p.status)),
             'fut': fut, 'closed': is_closed(p), 'task': task, 'outputs': flat_outputs(p.outputs),
             'acc': accessors(p), 'acts': [act_status(a) for a in _ACTS],
             'rpcs': [self.reply_status(f) for f in self.replies],
@@ -909,7 +914,7 @@ def accessors(p):
     elif st == 'KILLED':
         ok = res[0] == 'raise' and isinstance(res[1], plumpy.KilledError) and suc[0] == 'raise' and not p.is_successful and p.killed() and km[0] == 'ok' and p.exception() is None
         msg = km[1] if km[0] == 'ok' else None
-        out = ['KILLED', (msg or {}).get('message') if isinstance(msg, dict) else mval(msg)]
+        out = ['KILLED', 'NOMSG' if km[0] == 'ok' and msg is None else (msg or {}).get('message') if isinstance(msg, dict) else mval(msg)]
     else:
         ok = res[0] == 'raise' and isinstance(res[1], plumpy.InvalidStateError) and suc[0] == 'raise' and not p.is_successful and not p.killed() and km[0] == 'raise' and p.exception() is None
         out = ['LIVE']
